@@ -234,6 +234,11 @@ class GMRF(Distribution):
         return s
     
     @property
+    def rank(self):
+        """ Rank of the precision matrix (dim minus the dimension of the null space of the difference operator). """
+        return self._rank
+
+    @property
     def sqrtprec(self):
         return np.sqrt(self.prec)*self._chol.T
 
